@@ -277,6 +277,9 @@ func vNormEvent(ev *vEvent) {
 	if ev.WB.Aff == nil {
 		ev.WB.Aff = []int{}
 	}
+	if ev.WB.Meths == nil {
+		ev.WB.Meths = []string{}
+	}
 }
 
 func vRunRandom(job vRandJob, emit func(vEvent)) {
